@@ -61,6 +61,9 @@ class Spec:
     object_params: tuple[str, ...] = ()  # parameters that are objects, only looked at through `opaque` expressions
     refusal_returns: bool = False  # `return (code, subcode, text)` is a refusal: PyRes.raise code subcode (the text is not modelled)
     return_map: dict[str, tuple[str, str]] = field(default_factory=dict)  # `return <source>` ≡ raise (x_<a>, x_<b>): a refusal whose codes are inputs
+    const_exprs: dict[str, tuple[str, str]] = field(default_factory=dict)  # source text of an expression → (Lean literal, type): `Protocol(self).accept(connection)` is "a protocol object": true
+    refusal_calls: tuple[str, ...] = ()  # `return f(code, subcode, …)` for these dotted names ≡ raise code subcode (a refusal answered with that NOTIFICATION)
+    effect_methods: dict[str, tuple[str, str]] = field(default_factory=dict)  # `self.<m>(…)` as a statement ≡ self.<field> = <Lean literal> (a ghost field recording that it happened)
     slice_fields: bool = False  # translate the SLICE of the function that computes the declared fields: a statement which neither assigns a declared field nor a local a kept statement reads is left out (ints and bools are immutable: only an assignment changes them)
     identity_calls: tuple[str, ...] = ()  # T(e) ≡ e: constructors of int subclasses (HoldTime, ASN)
     tuple_result: tuple[int, int, int] | None = None  # `return e0, …, en` with e[err] = None ≡ ret (e[i], e[j]); with e[err] = NotifyError(c, s, …) ≡ raise c s (the other elements are buffers: not modelled)
@@ -118,11 +121,13 @@ class _Tr:
     # -- expressions: returns (lean, type) ---------------------------------------------------------
     def expr(self, e: ast.AST, env: dict[str, str]) -> tuple[str, str]:
         sp = self.spec
-        if sp.opaque:
+        if sp.opaque or sp.const_exprs:
             src = ast.unparse(e)
             if src in sp.opaque:
                 name, t = sp.opaque[src]
                 return f'x_{name}', t
+            if src in sp.const_exprs:
+                return sp.const_exprs[src]
         if isinstance(e, ast.Call) and isinstance(e.func, ast.Name) and e.func.id in sp.pure_calls and e.func.id not in env:
             callee = sp.pure_calls[e.func.id]
             if e.keywords or len(e.args) != len(callee.spec.params):
@@ -291,6 +296,11 @@ class _Tr:
                 return pad + self.ret(None)
             if isinstance(s.value, ast.Constant) and s.value.value is None:
                 return pad + self.ret(None)
+            if isinstance(s.value, ast.Call) and _dotted(s.value.func) in sp.refusal_calls and len(s.value.args) >= 2:
+                (a, ta), (b, tb) = self.expr(s.value.args[0], env), self.expr(s.value.args[1], env)
+                if ta != 'int' or tb != 'int':
+                    raise Unsupported(f'{self.fname}: refusal codes are not int: {ast.unparse(s.value)[:60]}')
+                return pad + f'PyRes.raise {a} {b}'
             if sp.return_map and ast.unparse(s.value) in sp.return_map:
                 a, b = sp.return_map[ast.unparse(s.value)]
                 return pad + f'PyRes.raise x_{a} x_{b}'
@@ -348,6 +358,12 @@ class _Tr:
                 m = self.self_call(s.value)
                 if m:
                     return self.bind(m, s.value, None, tail, env, ind)
+                f = s.value.func
+                if isinstance(f, ast.Attribute) and isinstance(f.value, ast.Name) and f.value.id == 'self' and f.attr in sp.effect_methods:
+                    fld, lit = sp.effect_methods[f.attr]
+                    if fld not in sp.fields:
+                        raise Unsupported(f'effect {ast.unparse(s)[:60]}: {fld} is not a declared field')
+                    return pad + f'let s_{fld} : {LEAN_T[sp.fields[fld]]} := {lit}\n' + self.block(tail, [], env, ind)
                 if isinstance(s.value.func, ast.Name) and s.value.func.id in sp.effect_calls and len(s.value.args) == 1 and not s.value.keywords:
                     fld = sp.effect_calls[s.value.func.id]
                     v, t = self.expr(s.value.args[0], env)
